@@ -111,6 +111,12 @@ class Ctx:
     def bad(self, key: str, what: str, witness: dict, label: str, law: str) -> None:
         k = f'{label}:{law}'
         self.lawcount[k] = self.lawcount.get(k, 0) + 1
+        if ':no-label' in key:
+            # a labelled/VPN object without a label stack is refused by the production send path
+            # (validate_announce_nlri): it is never encoded, so the round-trip law does not apply to it.
+            # Whether such text should be accepted at all is C18's business.
+            self.res.count('outside-claim:' + key)
+            return
         self.res.violation(key, what, witness, k)
 
     def law(self, v: LawViolation, extra: dict) -> None:
@@ -317,7 +323,8 @@ def check_eq_pair(ctx: Ctx, a, b, label: str, wit: dict) -> bool | None:
             ctx.res.count('contract-not-evaluated:' + label)
             ok, what, w2, kind = laws.check_l3(a, b)
             if not ok:
-                ctx.bad(f'C15/eq-{kind}:{label}', what, dict(wit, **w2), label, 'L3')
+                sub = (':' + type(a).__name__) if label.startswith('nlri:') and laws.nlri_sublabel(a) else ''
+                ctx.bad(f'C15/eq-{kind}:{label}{sub}', what, dict(wit, **w2), label, 'L3')
                 return True
         ctx.ok(label, 'L3')
     return bool(e1)
